@@ -145,6 +145,13 @@ func (e *Enc) assertSite(fr *Frame, st *Site, ctx *ExprCtx) {
 	}
 	e.siteHits[st]++
 	g := e.safeBool(ctx, st.Assert, "site "+e.siteLabel(st))
+	if st.Assume {
+		// domain restriction: paths continuing from here satisfy g
+		e.note("DOMAIN ASSUMED at " + e.siteLabel(st) + " in " + shortFnName(fr.fn) + ": " + st.Assert.Text)
+		fr.curReach = e.s.Define("reach:domain", And(fr.curReach, g))
+		e.addCover("site:"+e.siteLabel(st), fr.curReach, "domain restriction is satisfiable at the site")
+		return
+	}
 	e.addObligation("site", e.siteLabel(st), fr.curReach, g, st.Assert.Text)
 	e.addCover("site:"+e.siteLabel(st), fr.curReach, "site is reachable")
 	e.markSiteHit(fr)
@@ -532,7 +539,15 @@ func (e *Enc) frameObligation(fr *Frame) {
 		idx T
 	}
 	var al []allowed
+	mapRefs := map[string][]T{} // map type key -> refs of the map objects whose contents may change
 	for _, m := range e.fc.Modifies {
+		if call, ok := m.Expr.(CCall); ok {
+			if id, ok2 := call.Fun.(CIdent); ok2 && id.Name == "mapof" && len(call.Args) == 1 {
+				mv := ctx.expr(call.Args[0])
+				mapRefs[typeKey(mv.Typ)] = append(mapRefs[typeKey(mv.Typ)], e.scalar(mv.V))
+			}
+			continue
+		}
 		sel, ok := m.Expr.(CSel)
 		if !ok {
 			// whole-object modifies: skip precise frame for those
@@ -569,6 +584,22 @@ func (e *Enc) frameObligation(fr *Frame) {
 		if cur.S == ent.S {
 			continue
 		}
+		if mk, isMapKey := mapTypeOfKey(k); isMapKey && isArrSort(cur.Sort) {
+			// contents of map objects: only the listed objects and objects created during the
+			// call may differ
+			bv := T{"|fx|", SInt}
+			var exc []T
+			for _, r := range mapRefs[mk] {
+				exc = append(exc, Eq(bv, r))
+			}
+			for _, ar := range e.allocRefs {
+				exc = append(exc, Eq(bv, ar))
+			}
+			body := Imp(Not(Or(exc...)), Eq(Select(cur, bv), Select(ent, bv)))
+			g := T{"(forall ((|fx| Int)) " + body.S + ")", SBool}
+			e.addObligation("frame", k, fr.curReach, g, "only the declared map objects of "+k+" change")
+			continue
+		}
 		if !strings.HasPrefix(k, "f:") || !isArrSort(cur.Sort) {
 			e.addObligation("frame", k, fr.curReach, Eq(cur, ent), "location "+k+" is not in the modifies clause")
 			continue
@@ -589,6 +620,26 @@ func (e *Enc) frameObligation(fr *Frame) {
 		g := T{"(forall ((|fx| Int)) " + body.S + ")", SBool}
 		e.addObligation("frame", k, fr.curReach, g, "only the declared locations of "+k+" change")
 	}
+}
+
+// mapTypeOfKey: for heap keys md:T / ml:T / mv:T[.leaf] the map type key T.
+func mapTypeOfKey(k string) (string, bool) {
+	for _, p := range []string{"md:", "ml:"} {
+		if strings.HasPrefix(k, p) {
+			return k[len(p):], true
+		}
+	}
+	if strings.HasPrefix(k, "mv:") {
+		t := k[3:]
+		// leaf suffixes (.base/.off/.len/.cap/.tag/.data/.N) follow the closing bracket / name
+		for _, suf := range []string{".base", ".off", ".len", ".cap", ".tag", ".data"} {
+			if strings.HasSuffix(t, suf) {
+				return strings.TrimSuffix(t, suf), true
+			}
+		}
+		return t, true
+	}
+	return "", false
 }
 
 // sourceNameOf: the source-level variable name bound to an SSA value (via DebugRef), if any.
